@@ -2,7 +2,7 @@
    InscribedCircle::reversed, reverse_inscribed_circles, OrientedCircles (push / last / take_circles), find_tmax_circle.
    The camber extraction itself is certified per analysed section. *)
 From Coq Require Import ZArith List Bool Arith.
-From EG Require Import Num.Num Lib.Vec Model.Types.
+From EG Require Import Num.Num Lib.Vec Model.Types Model.TolMap Model.Curve Model.Closest.
 Import ListNotations.
 
 Section Airfoil.
@@ -30,4 +30,36 @@ Section Airfoil.
   (* first strict maximum of the diameter, starting from 0 *)
   Definition find_tmax (l : list station) : option station :=
     snd (fold_left (fun acc s => let d := s_r s * n2 in if fst acc <? d then (d, Some s) else acc) l (n0, None)).
+
+  (* ---- airfoil/orientation.rs ---- *)
+  (* DirectionFwd: the end that is further along the given direction comes first *)
+  Definition direction_fwd (dir : V2) (l : list station) : res (list station) :=
+    match l with
+    | [] => Err
+    | s0 :: _ =>
+        if dot2 dir (s_c s0) <? dot2 dir (s_c (last l s0)) then Ok (reverse_inscribed_circles l) else Ok l
+    end.
+
+  (* TMaxFwd: where along the polyline of centres (tolerance 1e-4, C01) the closest point (C02) to the centre of the
+     largest circle lies, as a fraction of its length *)
+  Definition tmax_fraction (l : list station) : res num :=
+    match from_points VO2 true (map s_c l) (nlit 1 (-4)) false with
+    | Ok cam =>
+        match find_tmax l with
+        | Some t =>
+            match poly_closest VO2 (s_c t) (cpts VO2 cam) with
+            | Some (_, i, f, p) => Ok (length_along VO2 cam (mkStation VO2 p p i f) / clength VO2 cam)
+            | None => Panic
+            end
+        | None => Err
+        end
+    | Err => Err
+    | Panic => Panic
+    end.
+  Definition tmax_fwd (l : list station) : res (list station) :=
+    match tmax_fraction l with
+    | Ok f => if nlit 5 (-1) <? f then Ok (reverse_inscribed_circles l) else Ok l
+    | Err => Err
+    | Panic => Panic
+    end.
 End Airfoil.
